@@ -36,15 +36,15 @@ fn offset_in(whole: &str, sub: &str) -> usize {
 }
 
 fn all_blank(bytes: &[u8], from: usize, to: usize) -> bool {
-    // straight-line over at most 5 positions
+    // straight-line over at most 6 positions
     let chk = |i: usize| i < from || i >= to || i >= bytes.len() || is_blank(bytes[i]);
-    chk(0) && chk(1) && chk(2) && chk(3) && chk(4)
+    chk(0) && chk(1) && chk(2) && chk(3) && chk(4) && chk(5)
 }
 
-/// number of line feeds in bytes[from..to] (straight-line over at most 5 positions)
+/// number of line feeds in bytes[from..to] (straight-line over at most 6 positions)
 fn count_nl(bytes: &[u8], from: usize, to: usize) -> usize {
     let c = |i: usize| (i >= from && i < to && i < bytes.len() && bytes[i] == b'\n') as usize;
-    c(0) + c(1) + c(2) + c(3) + c(4)
+    c(0) + c(1) + c(2) + c(3) + c(4) + c(5)
 }
 
 /// a recovered comment is a whole comment: a line comment runs to the end of its line (and not
@@ -52,16 +52,16 @@ fn count_nl(bytes: &[u8], from: usize, to: usize) -> usize {
 fn whole_comment(bytes: &[u8], at: usize, c: &str) -> bool {
     let end = at + c.len();
     let cb = c.as_bytes();
-    // straight-line: c has at most 5 bytes here
+    // straight-line: c has at most 6 bytes here
     let has_nl = (cb.len() > 0 && cb[0] == b'\n') || (cb.len() > 1 && cb[1] == b'\n') || (cb.len() > 2 && cb[2] == b'\n')
-        || (cb.len() > 3 && cb[3] == b'\n') || (cb.len() > 4 && cb[4] == b'\n');
+        || (cb.len() > 3 && cb[3] == b'\n') || (cb.len() > 4 && cb[4] == b'\n') || (cb.len() > 5 && cb[5] == b'\n');
     if c.starts_with("//") {
         // ends at a line end, or only trailing blanks of the whole text follow (they are trimmed)
         let sp = |i: usize| i < end || i >= bytes.len() || bytes[i] == b' ' || bytes[i] == b'\r';
         let at_eol = end == bytes.len()
             || bytes[end] == b'\n'
             || (bytes[end] == b'\r' && end + 1 < bytes.len() && bytes[end + 1] == b'\n')
-            || (sp(0) && sp(1) && sp(2) && sp(3) && sp(4));
+            || (sp(0) && sp(1) && sp(2) && sp(3) && sp(4) && sp(5));
         !has_nl && at_eol
     } else {
         c.len() >= 3 && cb[cb.len() - 2] == b'*' && cb[cb.len() - 1] == b'/'
@@ -206,12 +206,49 @@ fn c10_fwd_len3() {
     kani::cover!(code == 2, "comment recovered");
 }
 
-//@ tier=thorough cap=3000 mem=14 funcs=CommentIter::next bound=every_string_of_length_4_over_6_letter_alphabet
+//@ tier=quick cap=1500 mem=14 funcs=CommentIter::next bound=every_string_of_length_4_over_6_letter_alphabet
 #[kani::proof]
 #[kani::unwind(6)]
 fn c10_fwd_len4() {
     let code = fwd_step(gap!(a, b, c, d));
     kani::cover!(code == 2, "comment recovered");
+}
+
+/// fixed layouts around a CRLF-terminated line comment (the shortest one is 4 bytes, beyond the
+/// all-strings harnesses of the quick tier in the backward direction): x // y CR LF z
+macro_rules! crlf {
+    ($x: expr, $y: expr, $z: expr) => {{
+        let buf: &'static mut [u8] = Box::leak(Box::new([$x, b'/', b'/', $y, b'\r', b'\n', $z]));
+        // blanks chosen for x/z keep the text inside the 6 positions the straight-line helpers see
+        let s: &'static str = unsafe { std::str::from_utf8_unchecked(&buf[..6]) };
+        s
+    }};
+}
+fn blank_or_a() -> u8 {
+    let k: u8 = kani::any();
+    kani::assume(k < 3);
+    match k {
+        0 => b' ',
+        1 => b'\n',
+        _ => b'a',
+    }
+}
+
+//@ tier=quick cap=1200 mem=14 funcs=CommentIter::next bound=x_slash_slash_y_CR_LF;x_in_space_newline_a;y_any_of_6_letters
+#[kani::proof]
+#[kani::unwind(8)]
+fn c10_fwd_crlf() {
+    let code = fwd_step(crlf!(blank_or_a(), sym_byte(), b' '));
+    kani::cover!(code == 2, "comment recovered");
+}
+
+//@ tier=quick cap=1200 mem=14 funcs=CommentIter::next_back bound=x_slash_slash_y_CR_LF;x_in_space_newline_a;y_any_of_6_letters
+#[kani::proof]
+#[kani::unwind(8)]
+fn c10_back_crlf() {
+    let code = back_step(crlf!(blank_or_a(), sym_byte(), b' '));
+    kani::cover!(code == 2, "comment recovered");
+    kani::cover!(code == 1, "not a comment line");
 }
 
 //@ tier=quick cap=900
